@@ -49,7 +49,7 @@ fn main() {
             "compress_ids / delta_encode are documented for sorted id sequences; unsorted lists are fed only through the persistence paths that feed them (compress_vector by field name, compressed snapshot API), never directly",
             "SparseVector documents zero as 'absence of information': -0.0 -> +0.0 is accepted everywhere a value passes through a sparse or id-list form; every other float must come back bit-exact (NaN payloads included)",
             "compress_ints' raw fallback stores f32; exactness is required only for |v| <= 2^24 there (it is not on a persistence path)",
-            "allocation limits: frames max_frame_length (+ MAX_DECOMPRESSED_SIZE for LZ4) + 512 x payload; logs 512 x file size; varint/id lists 32 x input; bitcode containers 512 x input (bitcode spends >= 1 bit per primitive, a Vec<String> of empty strings legitimately expands ~340x) + 1 MiB (bitcode's speculative reservation cap, measured by `child calibrate`); run-length output 16 bytes per produced element; sparse dense form 4 x min(dimension, MAX_DIMENSION); all + 64 KiB",
+            "allocation limits: frames max_frame_length (+ MAX_DECOMPRESSED_SIZE for LZ4) + 512 x payload; logs 512 x file size; varint/id lists 32 x input; bitcode containers 512 x input (bitcode spends >= 1 bit per primitive, a Vec<String> of empty strings legitimately expands ~340x) + 4 MiB (serde's cautious pre-allocation: 1 MiB of elements per claimed length, hash maps round up to ~2.2 MiB); run-length output 16 bytes per produced element; sparse dense form 4 x min(dimension, MAX_DIMENSION); all + 64 KiB",
             "decoders whose honest output would exceed 2^20 elements (run-length bombs, sparse dimension, TT shape product) are not executed; they are counted under the *-not-executed labels",
             "the harness build has debug assertions and overflow checks on: a panic inside a decoder counts even if an optimised build would wrap or skip the assertion",
             "tt: the quantitative bound max(10 x tolerance, 1 % = the documented TT-mode error) relative L2 is asserted only for inputs of exact TT-rank <= max_rank (products of generated cores, constants, ramps); errors between 10 x tolerance and 1 % (non-converged 20-step power iteration) are counted under tt:error-above-10x-tolerance, not reported",
